@@ -243,6 +243,8 @@ def d_fun(name, x: Dual) -> Dual:
                 return -x
             if rat_is_zero(x.b):
                 return Dual(0)
+        if OPAQUE[0] and rat_is_zero(x.b):
+            return _opaque("abs", x.a)
         raise EvalError("abs of a symbolic value")
     raise EvalError(f"function {name}")
 
@@ -1189,6 +1191,8 @@ class Interp:
                     - g(0, 0) * g(1, 2) * g(2, 1) - g(0, 1) * g(1, 0) * g(2, 2) - g(0, 2) * g(1, 1) * g(2, 0)
             if A.shape == (2, 2):
                 return A.data[0] * A.data[3] - A.data[1] * A.data[2]
+            if A.shape == (1, 1):
+                return A.data[0]
             raise EvalError("det shape")
         if fn == "linalg.inv":
             A = n(args[0])
@@ -1228,14 +1232,18 @@ class Interp:
                         elif isinstance(t, ast.Subscript) and isinstance(t.value, ast.Name):
                             env.vars[t.value.id] = Unknown(str(ex))
         elif isinstance(st, ast.AugAssign):
-            cur = self.eval(ast.Name(id=st.target.id, ctx=ast.Load()), env) if isinstance(st.target, ast.Name) else None
-            if cur is None:
-                raise EvalError("augmented assignment target")
-            b = ast.BinOp(left=ast.Constant(value=0), op=st.op, right=ast.Constant(value=0))
-            env2 = Env(env.scope, env)
-            env2.vars["__l"], env2.vars["__r"] = cur, self.eval(st.value, env)
-            v = self.e_BinOp(ast.BinOp(left=ast.Name(id="__l", ctx=ast.Load()), op=st.op, right=ast.Name(id="__r", ctx=ast.Load())), env2)
-            env.vars[st.target.id] = v
+            try:
+                cur = self.eval(ast.Name(id=st.target.id, ctx=ast.Load()), env) if isinstance(st.target, ast.Name) else None
+                if cur is None:
+                    raise EvalError("augmented assignment target")
+                env2 = Env(env.scope, env)
+                env2.vars["__l"], env2.vars["__r"] = cur, self.eval(st.value, env)
+                v = self.e_BinOp(ast.BinOp(left=ast.Name(id="__l", ctx=ast.Load()), op=st.op, right=ast.Name(id="__r", ctx=ast.Load())), env2)
+                env.vars[st.target.id] = v
+            except EvalError as ex:
+                if not self.tolerant or not isinstance(st.target, ast.Name):
+                    raise
+                env.vars[st.target.id] = Unknown(str(ex))
         elif isinstance(st, ast.Return):
             raise ReturnSignal(self.eval(st.value, env) if st.value is not None else None)
         elif isinstance(st, ast.If):
